@@ -309,30 +309,30 @@ theorem accesses_filled (gen : T → GN) (vn fj : GN → NS) (flag : Bool) (trac
   | zero => rfl
   | succ k ih => simp [accesses, access_filled gen vn fj flag traces c v j hv hj, ih, List.replicate_succ]
 
-/-- **The object's node caches cannot go stale across the two passes.** In the regenerated cache logic of `Validation` (caches start empty, the node SETS are computed
-only while `determine_validation_nodes` is on -- which `run_validation` derives from the validators of the pass --, from `self.traces` as it is at that moment, and
-`self.traces` is the fixed frame from the end of the first pass on): the first pass (MAJOR validators, none of which needs nodes) leaves the caches empty whatever it
-validates; every `_validate` call of the second pass gets the V-node and junction sets of the FIXED frame.
-The two passes of `run_validation` with the default validators: `k1` calls on the unfixed frame with the flag of the MAJOR validators, then `k2` calls on the
-fixed frame with the flag of ALL validators, starting from the empty caches of a new object -/
-theorem C13_node_caches_follow_the_fixed_frame (gen : T → GN) (vn fj : GN → NS) (unfixed fixed : T) (k1 k2 : Nat) :
-    let f1 := val_flag requires_nodes (major_validators.map (·.1))
-    let f2 := val_flag requires_nodes (all_validators.map (·.1))
-    let p1 := accesses gen vn fj f1 unfixed k1 ({} : ValCaches GN NS)
-    let p2 := accesses gen vn fj f2 fixed k2 p1.2
-    p1.1 = List.replicate k1 (none, none) ∧ p2.1 = List.replicate k2 (some (vn (gen fixed)), some (fj (gen fixed))) := by
-  simp only [cache_flags.1, cache_flags.2]
-  rw [accesses_off gen vn fj unfixed k1 {} rfl rfl]
-  refine ⟨rfl, ?_⟩
-  cases k2 with
-  | zero => rfl
-  | succ k =>
-    simp only [accesses, access_on_fresh]
-    rw [accesses_filled gen vn fj true fixed k _ _ _ rfl rfl]
-    simp [List.replicate_succ]
+/-- **The object's node caches cannot go stale across the two passes** (after the repair of F26: every cache is reset where `self.traces` becomes the fixed frame).
+In the regenerated cache logic of `Validation` -- caches start empty, are filled at first access from `self.traces` as it is at that moment (the node SETS only while
+`determine_validation_nodes` is on, which `run_validation` derives from the validators of the pass), and are reset between the passes --: whatever validators the two passes
+run (default or chosen) and whatever the first pass computed, every `_validate` call of the second pass gets the V-node and junction sets of the FIXED frame, or none when no
+validator of the pass needs nodes. -/
+theorem C13_node_caches_follow_the_fixed_frame (gen : T → GN) (vn fj : GN → NS) (unfixed fixed : T) (k1 k2 : Nat) (flag1 flag2 : Bool) :
+    let p1 := accesses gen vn fj flag1 unfixed k1 ({} : ValCaches GN NS)
+    let p2 := accesses gen vn fj flag2 fixed k2 (val_between_passes p1.2)
+    p2.1 = List.replicate k2 (if flag2 then (some (vn (gen fixed)), some (fj (gen fixed))) else (none, none)) := by
+  simp only [val_between_passes]
+  cases flag2
+  · rw [accesses_off gen vn fj fixed k2 {} rfl rfl]; rfl
+  · cases k2 with
+    | zero => rfl
+    | succ k =>
+      simp only [accesses, access_on_fresh]
+      rw [accesses_filled gen vn fj true fixed k _ _ _ rfl rfl]
+      simp [List.replicate_succ]
+
+/-- with the default validators the first pass (MAJOR validators: none needs nodes) computes nothing and the second (ALL validators) needs the node sets -/
+theorem C13_node_caches_follow_the_fixed_frame_default_flags : val_flag requires_nodes (major_validators.map (·.1)) = false ∧ val_flag requires_nodes (all_validators.map (·.1)) = true := cache_flags
 
 /-- non-vacuity: the sets the second pass sees are those of the FIXED frame (frames are numbers, "nodes" their double, the sets ± 1) -/
-example : (accesses (fun t : Nat => 2 * t) (· + 1) (· - 1) true 7 2 (accesses (fun t : Nat => 2 * t) (· + 1) (· - 1) false 5 3 {}).2).1 = [(some 15, some 13), (some 15, some 13)] := by decide
+example : (accesses (fun t : Nat => 2 * t) (· + 1) (· - 1) true 7 2 (val_between_passes (accesses (fun t : Nat => 2 * t) (· + 1) (· - 1) true 5 3 {}).2)).1 = [(some 15, some 13), (some 15, some 13)] := by decide
 
 end Caches
 
